@@ -156,8 +156,10 @@ CHECKS = {
         engine="S",
         technique="exhaustive preemption-bounded schedule exploration of all actor pairs (and triples) over every subsystem, each explored schedule judged by Go's happens-before race detector (scheduler hand-offs hidden from it) plus deadlock/panic verdicts",
         text="A menu of 14 actors (ok / ejecting / aborting request, ejection, request expiring a stale window, probe tick through the real health-check loop, admin add / remove / strategy switch / list, metrics + health handlers, Stop, limiter arrival + cleanup, WebSocket-pool operations) is instantiated on a balancer with breaker, limiter, passive and active checks and the pool all enabled; all unordered pairs incl. self-pairs (thorough: all five strategies at 2 preemptions plus triples containing a request) are explored under every interleaving up to the preemption bound twice: in a normal build for deadlock / panic / unfinished-actor verdicts and in a -race build where Go's happens-before detector judges each explored schedule (the scheduler's hand-offs are hidden from it with runtime.RaceDisable, every shim primitive operates its real counterpart so Helios' own synchronisation is what orders accesses).",
-        note="The quantifier's 8-64 goroutines are replaced by 2-3 threads with exhaustive interleavings; race reports are attributed to the innermost non-library frame and dropped when that frame is harness or shim code; reports raised during teardown of an execution are discarded; the two-tick self pair is left to C19.",
+        note="The quantifier's 8-64 goroutines are replaced by 2-3 threads with exhaustive interleavings; race reports are attributed to the innermost non-library frame and dropped when that frame is harness or shim code; reports raised during teardown of an execution are discarded; the two-tick self pair is left to C19. A free-running workload of 32 goroutines over the real listener with unmodified sources (normal and -race build) is run as a complement and reported with exhaustive=false; it is sampling and never the deciding step.",
         jobs=[
+            dict(name="c12free", part="Free", pkg=MAIN, run="TestVerifC12Free", mode="plain", gomaxprocs=8, shards=5, timeout=dict(quick=600, thorough=900)),
+            dict(name="c12freerace", part="Free-Race", pkg=MAIN, run="TestVerifC12Free", mode="plain", race=True, gomaxprocs=8, shards=5, timeout=dict(quick=600, thorough=900)),
             dict(name="c12s", part="S", pkg=LB, run="TestVerifC12", mode="instr", shards=dict(quick=16, thorough=16), timeout=dict(quick=900, thorough=3400)),
             dict(name="c12race", part="Race", pkg=LB, run="TestVerifC12", mode="instr", race=True, shards=dict(quick=16, thorough=16), timeout=dict(quick=900, thorough=3400)),
         ],
@@ -206,9 +208,11 @@ CHECKS = {
         level="exploration",
         engine="W",
         technique="exhaustive enumeration of a finite product of Accept-Encoding spellings, content types, sizes around min_size and the buffer cap, payload kinds, handler programs, levels and chain positions over real connections, decoded strictly as labelled, with a differential oracle against the same exchange without the plugin",
-        text="The product of 11 Accept-Encoding spellings x 4 content types x body sizes {0, min-1, min, min+1, 4*min, 100 KiB} x payload kinds {zeros, text, incompressible, already gzip-encoded by the origin} x implicit/explicit status {200, 201, 404, 204, 304} x declared length x GET/HEAD, then levels -1..9 x four chain positions x min_size {1, 64, 1024}, multi-write and flushing handler programs and the cases cap-1, cap, cap+1 around the 10 MiB buffer is exchanged over real connections with and without the plugin; the raw client decodes strictly by the Content-Encoding and framing it received: the result must be the origin's entity with the origin's status; a re-coded response is permitted only if gzip was offered (q=0 counts as refused), the type matches, min_size <= size <= cap and the origin had not encoded; otherwise headers, framing and bytes must equal the exchange without the plugin. A sub-product runs with the origin as a backend behind the real balancer and reverse proxy.",
+        text="The product of 11 Accept-Encoding spellings x 4 content types x body sizes {0, min-1, min, min+1, 4*min, 100 KiB} x payload kinds {zeros, text, incompressible, already gzip-encoded by the origin} x implicit/explicit status {200, 201, 404, 204, 304} x declared length x GET/HEAD, then levels -1..9 x four chain positions x min_size {1, 64, 1024}, multi-write and flushing handler programs and the cases cap-1, cap, cap+1 around the 10 MiB buffer is exchanged over real connections with and without the plugin; the raw client decodes strictly by the Content-Encoding and framing it received: the result must be the origin's entity with the origin's status; a re-coded response is permitted only if gzip was offered (q=0 counts as refused), the type matches, min_size <= size <= cap and the origin had not encoded; otherwise headers, framing and bytes must equal the exchange without the plugin. A sub-product runs with the origin as a backend behind the real balancer and reverse proxy. Eight concurrent clients fetching differently marked bodies on fresh connections must each decode their own body, in a normal and in a -race build (state shared between concurrent responses).",
         note="Compression is never required by the oracle (the statement says 'only if'); levels and positions are crossed with a reduced core, not with the full product.",
         jobs=[
+            dict(name="c15conc", part="Conc", pkg=MAIN, run="TestVerifC15Conc", mode="plain", gomaxprocs=8, shards=1, timeout=dict(quick=600, thorough=3000)),
+            dict(name="c15race", part="Conc-Race", pkg=MAIN, run="TestVerifC15Conc", mode="plain", race=True, gomaxprocs=8, shards=1, timeout=dict(quick=600, thorough=3000)),
             dict(name="c15w", part="W", pkg=MAIN, run="TestVerifC15", mode="plain", gomaxprocs=4, shards=dict(quick=14, thorough=16), timeout=dict(quick=600, thorough=3000)),
         ],
         assumptions=[],
